@@ -1,14 +1,19 @@
-//! Operations for C05 (see ops.rs). Fill in: return Some(outcome) for the ops this module owns.
+//! PlainDateTime operations (C05).
 use crate::js::{self, big, int};
-use crate::ops::{utc, FS};
 use crate::proj::*;
 use serde_json::{json, Value};
 use temporal_rs::options::*;
 use temporal_rs::*;
 
 pub fn exec(op: &str, a: &Value) -> Option<Value> {
-    let _ = a;
-    match op {
-        _ => None,
-    }
+    Some(match op {
+        "PlainDateTime.new" => run(|| arg_datetime(&a["dt"]), p_datetime),
+        "PlainDateTime.add" => run(|| arg_datetime(&a["recv"])?.add(&arg_duration(&a["dur"])?, arg_ovf(a)), p_datetime),
+        "PlainDateTime.subtract" => run(|| arg_datetime(&a["recv"])?.subtract(&arg_duration(&a["dur"])?, arg_ovf(a)), p_datetime),
+        "PlainDateTime.until" => run(|| arg_datetime(&a["recv"])?.until(&arg_datetime(&a["other"])?, arg_settings(&a["st"])?), p_duration),
+        "PlainDateTime.since" => run(|| arg_datetime(&a["recv"])?.since(&arg_datetime(&a["other"])?, arg_settings(&a["st"])?), p_duration),
+        "PlainDateTime.round" => run(|| arg_datetime(&a["recv"])?.round(arg_rounding(&a["st"])?), p_datetime),
+        "PlainDateTime.compare" => run(|| Ok(arg_datetime(&a["recv"])?.compare_iso(&arg_datetime(&a["other"])?)), |o| p_ord(*o)),
+        _ => return None,
+    })
 }
